@@ -237,6 +237,22 @@ def run(case):
         if nq >= npc:
             refd = np.stack([V[:, a, ci] for ci in range(nc) for a in range(npc)])
             c.close("discontinuous", "topoints(average=False): values per cell corner", gd, refd, scale=1.0)
+        # results of earlier calls stay valid: every ordered pair of calls (same region, same tensor size) over
+        # {average, mean, discontinuous}; the first result is looked at again after the second call (increments between two
+        # states are formed this way)
+        if nq >= npc or nq == 1:
+            V2 = zoo.offarr(seed, 2001, (3, nq, nc))
+            modes = {"average": dict(), "mean": dict(mean=True), "discontinuous": dict(average=False)}
+            for (m1, k1), (m2, k2) in itertools.product(modes.items(), repeat=2):
+                first = fem.topoints(V, region, **k1)
+                keep = np.array(first, copy=True)
+                second = fem.topoints(V2, region, **k2)
+                c.trans += 2
+                c.traces += 1
+                if not np.array_equal(np.asarray(first), keep):
+                    c.bad(f"alias/{m1}>{m2}", "the array returned by an earlier topoints call changed when topoints was called again (shared result buffer)", float(np.abs(np.asarray(first) - keep).max()), 0)
+                if np.shares_memory(np.asarray(first), np.asarray(second)):
+                    c.bad(f"alias/{m1}>{m2}/memory", "two topoints results share memory", "shared", "independent")
         return c.result(dict(case=case["key"], points=int(n), cells_per_point_max=int(cpp.max())))
     if op == "stress":
         mk, fk, mat = case["mesh"], case["fk"], case["mat"]
